@@ -59,6 +59,23 @@ class VariableComputationNode(ComputationNode):
     def constraints(self):
         return self._constraints
 
+    def _simple_repr(self):
+        # The order links are added once the graph is built: they are not
+        # constructor arguments and must be kept explicitly.
+        r = super()._simple_repr()
+        r["order_links"] = simple_repr(
+            [l for l in self.links if isinstance(l, OrderLink)]
+        )
+        return r
+
+    @classmethod
+    def _from_repr(cls, r):
+        r = dict(r)
+        order_links = from_repr(r.pop("order_links", []))
+        node = super()._from_repr(r)
+        node.links.extend(order_links)
+        return node
+
     def get_previous(self):
         for l in self.links:
             if l.type == "previous":
